@@ -2108,34 +2108,46 @@ coap_read_session(coap_context_t *ctx, coap_session_t *session, coap_tick_t now)
   } else if (session->proto == COAP_PROTO_WS ||
              session->proto == COAP_PROTO_WSS) {
     ssize_t bytes_read = 0;
+    int more;
 
-    /* WebSocket layer passes us the whole packet */
-    bytes_read = session->sock.lfunc[COAP_LAYER_SESSION].l_read(session,
-                                                                packet->payload,
-                                                                packet->length);
-    if (bytes_read < 0) {
-      coap_session_disconnected_lkd(session, COAP_NACK_NOT_DELIVERABLE);
-    } else if (bytes_read > 0) {
-      coap_pdu_t *pdu;
+    do {
+      /* WebSocket layer passes us the whole packet */
+      bytes_read = session->sock.lfunc[COAP_LAYER_SESSION].l_read(session,
+                                                                  packet->payload,
+                                                                  packet->length);
+      if (bytes_read < 0) {
+        coap_session_disconnected_lkd(session, COAP_NACK_NOT_DELIVERABLE);
+      } else if (bytes_read > 0) {
+        coap_pdu_t *pdu;
 
-      session->last_rx_tx = now;
-      /* Need max space incase PDU is updated with updated token etc. */
-      pdu = coap_pdu_init(0, 0, 0, coap_session_max_pdu_rcv_size(session));
-      if (!pdu) {
-        return;
-      }
+        session->last_rx_tx = now;
+        /* Need max space incase PDU is updated with updated token etc. */
+        pdu = coap_pdu_init(0, 0, 0, coap_session_max_pdu_rcv_size(session));
+        if (!pdu) {
+          return;
+        }
 
-      if (!coap_pdu_parse(session->proto, packet->payload, bytes_read, pdu)) {
-        coap_handle_event_lkd(session->context, COAP_EVENT_BAD_PACKET, session);
-        coap_log_warn("discard malformed PDU\n");
+        if (!coap_pdu_parse(session->proto, packet->payload, bytes_read, pdu)) {
+          coap_handle_event_lkd(session->context, COAP_EVENT_BAD_PACKET, session);
+          coap_log_warn("discard malformed PDU\n");
+        } else {
+          coap_dispatch(ctx, session, pdu);
+        }
         coap_delete_pdu(pdu);
-        return;
       }
-
-      coap_dispatch(ctx, session, pdu);
-      coap_delete_pdu(pdu);
-      return;
-    }
+      more = 0;
+#if COAP_WS_SUPPORT
+      /*
+       * The WebSocket layer reads ahead up to a frame header's worth of bytes.
+       * What follows the returned packet there may be further complete
+       * frame(s) for which no new read event is going to happen.
+       */
+      if (bytes_read > 0 && session->ws && session->ws->hdr_ofs > 0 &&
+          session->state != COAP_SESSION_STATE_NONE &&
+          (session->sock.flags & COAP_SOCKET_CONNECTED))
+        more = 1;
+#endif /* COAP_WS_SUPPORT */
+    } while (more);
   } else {
     ssize_t bytes_read = 0;
     const uint8_t *p;
